@@ -414,6 +414,55 @@ HAND = {
   }
 }
 """,
+    # one instruction using the SAME value in several operand slots (binop, call arguments, cjmp, phi inputs):
+    # replacing that value (mem2reg replaces the load) must update every slot and keep def-use sets consistent
+    "dup_operand_uses": """module m;
+global variable g (4 bytes aligned at 4)
+external function i32 e2(i32, i32);
+global function i32 f(i32 a, i32 b) {
+  b0: {
+    blob<4:4> s = alloc 4 bytes aligned at 4;
+    ptr sp = &s;
+    store a, sp;
+    i32 v = load sp;
+    i32 w = v * v;
+    i32 c = call e2(v, v);
+    cjmp v < b ? b1 : b2;
+  }
+  b1: {
+    store w, g;
+    jmp b2;
+  }
+  b2: {
+    i32 r = phi b0: v, b1: v;
+    i32 r2 = r + c;
+    return r2;
+  }
+}
+""",
+    "dup_operand_uses_phi_replaced": _HDR + """  b0: {
+    i32 one = 1;
+    cjmp a < b ? b1 : b2;
+  }
+  b1: {
+    jmp b2;
+  }
+  b2: {
+    i32 t = phi b0: a, b1: a;
+    i32 w = t * t;
+    i32 x = w + t;
+    cjmp t == t ? b3 : b4;
+  }
+  b3: {
+    store x, g;
+    jmp b4;
+  }
+  b4: {
+    i32 r = phi b2: t, b3: t;
+    return r;
+  }
+}
+""",
     # empty infinite loop of two jump-only blocks behind a condition (C: if (a) for(;;){})
     "spin2_behind_if": _HDR + """  b0: {
     cjmp a < b ? spin : out;
